@@ -60,6 +60,9 @@ def run(ctx) -> None:
     from . import c12
     c12.r6_rebuild_sites(ctx, "C03.R8", scope=("sigma.modifiers",), floor=0)
     r9_argument_not_mutated(ctx)
+    r10_re_needs_text(ctx)
+    r11_placeholder_delimiters(ctx)
+    r12_numbers_exact(ctx)
 
 
 def r1_registry(ctx, reg: dict[str, str]) -> None:
@@ -182,20 +185,9 @@ def r3_wildcard_adders(ctx) -> None:
                         r.ok("C03.R3", f.qual, "trailing wildcard only if not already present", loc)
                     else:
                         r.violation("C03.R3", f.qual, unparse(n), f"trailing wildcard added without the `not val.endswith(WILDCARD_MULTI)` guard ({gs})", loc)
-                elif tgt == "val.regexp":
-                    leading = val.startswith("SigmaString('.') + SpecialChars.WILDCARD_MULTI + val.regexp") or val.startswith('SigmaString(".") + SpecialChars.WILDCARD_MULTI + val.regexp')
-                    g = [(t if p else f"not {t}") for t, p in gs if "regexp_str" in t]
-                    want = ("regexp_str[:2] != '.*'", "not regexp_str.startswith('^')") if leading else ("regexp_str[-2:] != '.*'", "not regexp_str.endswith('$')")
-                    gq = [t.replace('"', "'") for t in g]
-                    alt = ("regexp_str[0] != '^'",) if leading else ("regexp_str[-1] != '$'",)
-                    if want[0] in gq and (want[1] in gq or alt[0] in gq):
-                        r.ok("C03.R3", f.qual, f"regex {'prefix' if leading else 'suffix'} '.*' only if neither present nor anchored", loc)
-                        if (leading and not lead) or (not leading and not trail):
-                            r.violation("C03.R3", f.qual, unparse(n), f"{cn} must not add a {'leading' if leading else 'trailing'} '.*'", loc)
-                    else:
-                        r.violation("C03.R3", f.qual, unparse(n)[:120], f"regex wildcard added under {gq}; expected guards {want}", loc)
                 elif tgt in ("val.starts_with", "val.ends_with"):
                     pass
+        _r3_regex_branch(ctx, f, cn, lead, trail)
         if got_lead != lead or got_trail != trail:
             r.violation("C03.R3", f.qual, f"adds leading={got_lead}, trailing={got_trail}", f"{cn} must add leading={lead}, trailing={trail} wildcards to plain strings", f.loc)
         flags = {unparse(n.targets[0]): unparse(n.value) for n in walk_no_nested(f.node) if isinstance(n, ast.Assign) and unparse(n.targets[0]) in ("val.starts_with", "val.ends_with")}
@@ -218,6 +210,80 @@ def r3_wildcard_adders(ctx) -> None:
     else:
         r.violation("C03.R3", f.qual, " / ".join(s.split(":")[0] for s in src), "wildcards must be tested on the parsed SigmaString (startswith/endswith of WILDCARD_MULTI), not on its text: an escaped literal '*' at the edge is not a wildcard", f.loc)
     r.floor("C03.R3", 14)
+
+
+REGEX_SAMPLES = ["foo", ".*foo", "foo.*", "^foo", "foo$", "foo\\$", "foo\\\\$", "foo\\.*", "foo\\\\.*", ".*foo.*", "^foo$", "\\.*foo", "", "a|b", "foo\\\\\\$"]
+
+
+def _unescaped_tail(rx: str, tail: str) -> bool:
+    if not rx.endswith(tail):
+        return False
+    head = rx[:-len(tail)]
+    return (len(head) - len(head.rstrip("\\"))) % 2 == 0
+
+
+def _r3_regex_branch(ctx, f: FuncInfo, cn: str, lead: bool, trail: bool) -> None:
+    """The regular-expression branch of a wildcard adder, tabulated: modify() is interpreted (sa.tabulate, nothing of pySigma
+    runs) on a stand-in regular expression for each sample text; the result must be the text with '.*' added in front
+    unless it starts with '.*' or '^', and behind unless it ends with an *unescaped* '.*' or '$'."""
+    from ..tabulate import Interp, Raised
+    r, prog = ctx.r, ctx.prog
+
+    class _W:  # SpecialChars.WILDCARD_MULTI
+        pass
+
+    class _S:  # SigmaString stand-in: text with '*' for the multi wildcard
+        def __init__(self, t=""):
+            self.t = t
+
+        def __add__(self, o):
+            return _S(self.t + ("*" if isinstance(o, _W) or o is _W else o.t))
+
+        def __radd__(self, o):
+            return _S(("*" if isinstance(o, _W) or o is _W else o.t) + self.t)
+
+        def __str__(self):
+            return self.t
+
+    class _RX:
+        def __init__(self, t, *args, **kwargs):
+            self.regexp = t if isinstance(t, _S) else _S(t)
+
+        def compile(self):
+            return None
+
+    class _FR:
+        pass
+
+    wm = _W()
+    sc = type("SpecialChars", (), {"WILDCARD_MULTI": wm})
+    env = {"SigmaString": _S, "SigmaRegularExpression": _RX, "SigmaFieldReference": _FR, "SpecialChars": sc, "self": object()}
+    # module-level helper functions of sigma.modifiers that the body calls
+    helpers = {}
+    for st in f.module.tree.body:
+        if isinstance(st, ast.FunctionDef):
+            helpers[st.name] = st
+    bad = []
+    for rx in REGEX_SAMPLES:
+        it = Interp(dict(env, val=_RX(rx)))
+        for name, st in helpers.items():
+            it.env[name] = it._make_function(st)
+        try:
+            out = it.call(f.node.body)
+        except Raised as ex:
+            bad.append((rx, f"raises {ex}"))
+            continue
+        got = str(out.regexp) if isinstance(out, _RX) else repr(out)
+        want = ("" if not lead or rx.startswith(".*") or rx.startswith("^") else ".*") + rx + \
+               ("" if not trail or _unescaped_tail(rx, ".*") or _unescaped_tail(rx, "$") else ".*")
+        if got != want:
+            bad.append((rx, f"gives {got!r}, specified {want!r}"))
+    if bad:
+        rx, why = bad[0]
+        r.violation("C03.R3", f.qual, f"regular expression branch of {cn}.modify on {rx!r}",
+                    f"{why} (+{len(bad) - 1} more sample(s)): '.*' is added in front unless the expression starts with '.*' or '^', and behind unless it ends with an unescaped '.*' or '$' — a '$' or '.' behind an odd number of backslashes is a literal character, the wildcard is still missing", f.loc)
+    else:
+        r.ok("C03.R3", f.qual, f"regular expression branch tabulated on {len(REGEX_SAMPLES)} sample texts: '.*' added exactly where missing (escaped tails counted as literals)", f.loc)
 
 
 def r4_effects(ctx, reg: dict[str, str]) -> None:
@@ -440,3 +506,152 @@ def r9_argument_not_mutated(ctx) -> None:
                             r.violation("C03.R9", f.qual, stmt_head(st), "the modifier assigns into the string it was given", f"{f.module.relpath}:{st.lineno}")
     r.note(f"C03.R9: self-mutating SigmaString methods: {sorted(mutating)}")
     r.floor("C03.R9", 5)
+
+
+def _raises_sigma(prog, f: FuncInfo, rs: ast.Raise) -> bool:
+    e = rs.exc.func if isinstance(rs.exc, ast.Call) else rs.exc
+    q = prog.resolve_expr(f.module, e) if e is not None else None
+    return bool(q) and is_sigma_error(prog, q)
+
+
+def r10_re_needs_text(ctx) -> None:
+    """`re` is applied before typing: from_mapping wraps the raw YAML value into a SigmaString itself (no escaping), so the
+    generic type gate of SigmaModifier.apply sees a SigmaString whatever the YAML value was."""
+    r, prog = ctx.r, ctx.prog
+    r.rule("C03.R10", "a raw value is wrapped with SigmaString.from_str only if it is a str: the call is guarded by isinstance(v, str), or a refusal (Sigma error) for `not all(isinstance(v, str) …)` under the same modifier test precedes it")
+    n = 0
+    for q, f in sorted(prog.funcs.items()):
+        if f.module.name not in ("sigma.rule.detection", "sigma.modifiers"):
+            continue
+        for c in (x for x in ast.walk(f.node) if isinstance(x, ast.Call) and call_name(x).endswith("SigmaString.from_str")):
+            n += 1
+            loc = f"{f.module.relpath}:{c.lineno}"
+            arg = c.args[0] if c.args else None
+            while isinstance(arg, ast.Call) and call_name(arg) == "cast" and len(arg.args) == 2:
+                arg = arg.args[1]
+            if isinstance(arg, ast.Constant) and isinstance(arg.value, str):
+                r.ok("C03.R10", q, f"{short(c, 60)}: constant text", loc)
+                continue
+            at = unparse(arg) if arg is not None else "?"
+            # (a) element-wise guard
+            gs = atomic_guards(guards_at(prog, f, c))
+            if (f"isinstance({at}, str)", True) in gs:
+                r.ok("C03.R10", q, f"{short(c, 60)} under isinstance({at}, str)", loc)
+                continue
+            # (b) a refusal before the call, read off the CFG guards: (A and not all(isinstance(x, str) for x in L)) is False
+            # and A is True at the call  =>  every element of L is a str; the wrapped value must be an element of L
+            refused = False
+            raw = guards_at(prog, f, c)
+            true_txt = {unparse(t) for t, pol in raw if pol}
+            for t, pol in raw:
+                if pol or not (isinstance(t, ast.BoolOp) and isinstance(t.op, ast.And)):
+                    continue
+                rest = [v for v in t.values if unparse(v) not in true_txt]
+                if len(rest) != 1 or not (isinstance(rest[0], ast.UnaryOp) and isinstance(rest[0].op, ast.Not)):
+                    continue
+                x = rest[0].operand
+                if isinstance(x, ast.Call) and call_name(x) == "all" and x.args and isinstance(x.args[0], (ast.GeneratorExp, ast.ListComp)):
+                    g = x.args[0]
+                    el = g.elt
+                    if isinstance(el, ast.Call) and call_name(el) == "isinstance" and unparse(el.args[1]) == "str" and len(g.generators) == 1 \
+                            and unparse(el.args[0]) == unparse(g.generators[0].target):
+                        lst = unparse(g.generators[0].iter)
+                        comp = next((a for a in prog.ancestors(c) if isinstance(a, (ast.ListComp, ast.GeneratorExp))), None)
+                        if comp is not None and unparse(comp.generators[0].iter) == lst and unparse(comp.generators[0].target) == at:
+                            refused = True
+            if refused:
+                r.ok("C03.R10", q, f"{short(c, 60)}: non-text values are refused with a Sigma error before the wrapping", loc)
+            else:
+                r.violation("C03.R10", q, short(prog.enclosing_stmt(c), 120),
+                            f"{at} comes from the YAML document and is wrapped into a SigmaString unchecked: `f|re: 123` yields a regular expression holding an int (later TypeError/AttributeError in modifiers and backends instead of a Sigma type error)", loc)
+    r.floor("C03.R10", 1)
+
+
+def r11_placeholder_delimiters(ctx) -> None:
+    """expand: only unescaped %name% becomes a placeholder. Decided on the syntax tree of the pattern (re._parser)."""
+    import re._parser as sp  # type: ignore[import-not-found]
+    r, prog = ctx.r, ctx.prog
+    r.rule("C03.R11", "placeholder pattern: the opening '%' is not preceded by a backslash (negative look-behind) and the closing '%' cannot be an escaped one (the name class excludes '\\' and '%', or the closing delimiter has its own look-behind)")
+    f = prog.func("sigma.types.SigmaString.insert_placeholders")
+    pats = [c for c in walk_no_nested(f.node) if isinstance(c, ast.Call) and call_name(c) in ("re.finditer", "re.compile", "re.search", "re.sub") and c.args]
+    if not pats:
+        raise AnalysisError(f"{f.qual}: placeholder pattern not found")
+    for c in pats:
+        loc = f"{f.module.relpath}:{c.lineno}"
+        pat = const_eval(prog, f.module, c.args[0])
+        if not isinstance(pat, str):
+            r.violation("C03.R11", f.qual, short(c, 100), "placeholder pattern is not a constant", loc)
+            continue
+        tree = list(sp.parse(pat))
+        ops = [str(op) for op, _ in tree]
+        pct = [i for i, (op, av) in enumerate(tree) if str(op) == "LITERAL" and av == ord("%")]
+        problems = []
+        if len(pct) != 2:
+            problems.append("expected exactly two literal '%' delimiters")
+        else:
+            o, cl = pct
+            def lookbehind_bs(i):
+                return i > 0 and str(tree[i - 1][0]) == "ASSERT_NOT" and tree[i - 1][1][0] == -1 and [(str(a), b) for a, b in tree[i - 1][1][1]] == [("LITERAL", 92)]
+            if not lookbehind_bs(o):
+                problems.append("the opening '%' has no negative look-behind for a backslash")
+            # name part between the delimiters
+            inner = tree[o + 1:cl]
+            excl = set()
+            for op, av in inner:
+                if str(op) == "SUBPATTERN":
+                    for op2, av2 in av[3]:
+                        if str(op2) in ("MAX_REPEAT", "MIN_REPEAT"):
+                            for op3, av3 in av2[2]:
+                                if str(op3) == "IN" and av3 and str(av3[0][0]) == "NEGATE":
+                                    excl |= {b for a, b in av3[1:] if str(a) == "LITERAL"}
+                                elif str(op3) == "NOT_LITERAL":  # [^x] with one member
+                                    excl.add(av3)
+            closing_guarded = lookbehind_bs(cl)
+            if ord("%") not in excl:
+                problems.append("the name may contain '%'")
+            if ord("\\") not in excl and not closing_guarded:
+                problems.append("an escaped '\\%' can close a placeholder: the name class admits the backslash and the closing '%' has no look-behind ('%a\\%' becomes Placeholder('a\\'))")
+        if problems:
+            r.violation("C03.R11", f.qual, f"pattern {pat!r}", "; ".join(problems), loc)
+        else:
+            r.ok("C03.R11", f.qual, f"pattern {pat!r}: opening delimiter guarded by (?<!\\\\), closing delimiter cannot be escaped", loc)
+    r.floor("C03.R11", 1)
+
+
+def r12_numbers_exact(ctx) -> None:
+    """lt/lte/gt/gte and plain numbers: the type changes, the content does not. SigmaNumber.__post_init__ tabulated."""
+    from math import isfinite
+    from ..tabulate import Interp, Raised
+    r, prog = ctx.r, ctx.prog
+    r.rule("C03.R12", "SigmaNumber keeps the content of a number: an int (also above 2**53, also given as text) is stored as that int, an integral float as int, any other finite float as that float; non-finite values are refused")
+    f = prog.func("sigma.types.SigmaNumber.__post_init__")
+    samples = [0, 5, -3, 2 ** 53 + 1, 2 ** 63 - 1, 10 ** 30, -(2 ** 53) - 1, 1.5, 2.0, 1000.0, -0.25, "12", "9007199254740993", True]
+    bad = []
+    for x in samples:
+        me = type("N", (), {})()
+        it = Interp({"self": me, "init_number": x, "isfinite": isfinite, "SigmaValueError": type("SigmaValueError", (Exception,), {}),
+                     "ValueError": ValueError, "OverflowError": OverflowError})
+        try:
+            it.call(f.node.body)
+        except Raised as ex:
+            bad.append((x, f"refused ({ex})"))
+            continue
+        got = getattr(me, "number", None)
+        want = int(x) if isinstance(x, (int, str)) or float(x) == int(x) else x
+        if got != want or type(got) is not type(want):
+            bad.append((x, f"stored as {got!r} ({type(got).__name__}), content is {want!r}"))
+    for x in (float("inf"), float("nan")):
+        me = type("N", (), {})()
+        it = Interp({"self": me, "init_number": x, "isfinite": isfinite, "SigmaValueError": type("SigmaValueError", (Exception,), {}),
+                     "ValueError": ValueError, "OverflowError": OverflowError})
+        try:
+            it.call(f.node.body)
+            bad.append((x, f"accepted as {getattr(me, 'number', None)!r}"))
+        except Raised:
+            pass
+    if bad:
+        x, why = bad[0]
+        r.violation("C03.R12", f.qual, f"SigmaNumber({x!r})", f"{why} (+{len(bad) - 1} more sample(s)): `f|gt: 9007199254740993` would be emitted as f>9007199254740992.0 — another boundary", f.loc)
+    else:
+        r.ok("C03.R12", f.qual, f"tabulated on {len(samples) + 2} sample inputs: content kept, non-finite refused", f.loc)
+    r.floor("C03.R12", 1)
